@@ -17,7 +17,7 @@ PROPS = {
         ],
     },
     'C03': {'design_ref': '§C03', 'not_decided': ['event emission (exactly one terminal event)', 'duplicate-id refusal', 'restart reconstruction', 'failure attribution', 'balances']},
-    'C04': {'design_ref': '§C04', 'not_decided': ['authenticity (HMAC/ChaCha assumed)', 'the block/timer loops that call the per-HTLC expiry tests (only check_mpp_timeout, check_onchain_timeout and the advertised claim deadline are under contract)', 'all-or-nothing claim across channels']},
+    'C04': {'design_ref': '§C04', 'not_decided': ['the cryptography itself (HMAC-SHA256 / SHA256 / ChaCha20 are uninterpreted: that the secret is checked against the right HMAC is proved, that HMACs cannot be forged is assumed)', 'decryption of the payment metadata', 'the block/timer loops that call the per-HTLC expiry tests (only check_mpp_timeout, check_onchain_timeout and the advertised claim deadline are under contract)', 'all-or-nothing claim across channels']},
     'C05': {'design_ref': '§C05', 'not_decided': ['release of a secret only after a newer signed commitment', 'at most one unrevoked counterparty commitment',
                                                   'comparison of the secret with the announced point in revoke_and_ack', 'reestablish', 'restart']},
     'C06': {'design_ref': '§C05', 'not_decided': ['recognising the revoked transaction', 'building valid justice transactions for every output', 'the re-issuing loop of OnchainTxHandler (only the bump arithmetic feerate_bump / get_height_timer is under contract)', 'reload']},
@@ -26,11 +26,11 @@ PROPS = {
     'C11': {'design_ref': '§C11', 'not_decided': ['independence from the delivery style', 'idempotent re-delivery', 'what OnchainTxHandler does on reorg', 'events already acted upon']},
     'C12': {'design_ref': '§C12', 'not_decided': ['round trip of ChannelManager, ChannelMonitor, ChannelMonitorUpdate, graph, scorer, sweeper', 'behavioural equivalence after reload']},
     'C13': {'design_ref': '§C12', 'not_decided': ['messages with keys/signatures', 'feature vectors', 'decoding totality on arbitrary-length input']},
-    'C14': {'design_ref': '§C14', 'not_decided': ['peeling yields each hop payload', 'filler correctness', 'HMAC tamper rejection', 'failure attribution']},
+    'C14': {'design_ref': '§C14', 'not_decided': ['that peeling yields each hop payload (ChaCha20 stream, filler correctness)', 'the cryptography itself (HMAC uninterpreted: that the gate compares against the HMAC of hop data + payment hash is proved)', 'failure attribution to the right hop']},
     'C15': {'design_ref': '§C15', 'not_decided': ['handshake acts (ECDH)', 'stream reassembly and back-pressure in peer_handler.rs', 'Init-before-anything', 'panic freedom of the peer handler']},
     'C16': {'design_ref': '§C16', 'not_decided': ['connectivity', 'capacity shared across paths', 'limits', 'does not report failure when a path exists (get_route)']},
     'C17': {'design_ref': '§C17', 'not_decided': ['the signature on channel_update (secp_verify_sig! inside update_channel_internal) and the cryptography itself (uninterpreted)', 'rejection of updates for unknown channels (map lookup)', 'removal of permanently failed channels and of nodes left without channels', 'order-independence and duplication-insensitivity of the whole graph (history property)', 'serialization of the graph', 'rapid-gossip-sync snapshots', 'that the sliced tests are applied on every path that stores information']},
-    'C18': {'design_ref': '§C18', 'not_decided': ['signatures', 'bech32 checksum', 'merkle roots', 'metadata HMACs', 'string-level parsing totality', 'BOLT-12 TLV streams']},
+    'C18': {'design_ref': '§C18', 'not_decided': ['the cryptography itself (ECDSA / Schnorr uninterpreted: that each object is checked against the right key over the right hash is proved)', 'bech32 checksum', 'merkle root construction', 'metadata HMACs (signer.rs)', 'string-level parsing totality', 'BOLT-12 TLV stream parsing and semantic validation']},
     'C19': {'design_ref': '§C19', 'not_decided': ['atomic map behaviour of FilesystemStore', 'crash recovery', 'clean-up call made from update_persisted_channel', 'update application order on read']},
     'C20': {'design_ref': '§C20', 'not_decided': ['the notification calls themselves (connect_blocks)', 'cache eviction', 'synchronize_listeners', 'behaviour under source errors', 'termination']},
 }
